@@ -46,7 +46,9 @@ def gen_cases(tier, seed):
     for name, r in ROWS.items():
         for N in r["orders"]:
             for _ in range(reps):
-                yield {"w": "row", "row": name, "N": N, "cseed": int(seed) * 236887691 % (2 ** 31) + next(cs)}
+                k = next(cs)
+                # sparse holders: mostly partially filled, sometimes without any stored nonzero (where loops over nonzeros never run)
+                yield {"w": "row", "row": name, "N": N, "cseed": int(seed) * 236887691 % (2 ** 31) + k, "fill": ["some", "none", "some", "all"][(k + int(seed)) % 4]}
 
 
 def other_shape(e, how=None):
@@ -71,6 +73,7 @@ def other_shape(e, how=None):
 def with_shape(e, shape):
     e2 = Env(e.rng, len(shape))
     e2.shape = tuple(shape)
+    e2.fill = e.fill
     return e2
 
 
@@ -730,6 +733,17 @@ def _(e):
     return "sptenmat.__init__", ttb.sptenmat, (subs, np.array([[1.0]]), np.array(M.rdims), np.array(M.cdims), tuple(M.tshape)), {}, None, {}
 
 
+@row("sptenmat.__init__:subscript-one-past-the-end", (1, 2, 3))
+def _(e):
+    # boundary of the range check: the largest legal subscript + 1, in the row or in the column position, everything else legal
+    M = e.sptenmat()
+    which = int(e.rng.integers(0, 2))
+    sub = [int(e.rng.integers(0, M.shape[0])), int(e.rng.integers(0, M.shape[1]))]
+    sub[which] = int(M.shape[which])
+    subs = np.array([sub])
+    return "sptenmat.__init__", ttb.sptenmat, (subs, np.array([[1.0]]), np.array(M.rdims), np.array(M.cdims), tuple(M.tshape)), {}, None, {"position": ["row", "column"][which]}
+
+
 @row("sumtensor.__init__:parts-of-different-shape")
 def _(e):
     shp, how = other_shape(e, "size")
@@ -1086,12 +1100,13 @@ def run_case(case, ctx):
     import shutil
 
     e = Env(np.random.default_rng(case["cseed"]), case["N"])
+    e.fill = case.get("fill", "some")
     r_ = ROWS[case["row"]]
     made = r_["make"](e)
     if made is None:
         return
     op, fn, args, kw, recv, feats = made
-    ctx.feat(row=case["row"], N=case["N"], **{k: v for k, v in feats.items() if k != "cleanup"})
+    ctx.feat(row=case["row"], N=case["N"], fill=e.fill, **{k: v for k, v in feats.items() if k != "cleanup"})
     before = None if recv is None else state_digest(recv)
     argdig = [state_digest(a) for a in args if type(a).__name__ in ("tensor", "sptensor", "ktensor", "ttensor", "sumtensor", "tenmat", "sptenmat")]
     with contextlib.redirect_stdout(io.StringIO()):
